@@ -240,7 +240,28 @@ class Module:
         for f in self.all_funcs:
             if f.qualname == qualname:
                 return f
+        # `A.<locals>.rec` where A now only hands over to a worker (`return self._worker(..)`): the worker's `rec`
+        if '.<locals>.' in qualname:
+            outer, inner = qualname.split('.<locals>.', 1)
+            o = self.func(outer)
+            h = self._delegate(o) if o is not None else None
+            if h is not None:
+                return self.func(h.qualname + '.<locals>.' + inner)
         return None
+
+    def _delegate(self, f):
+        """the function f hands over to, if its body is a single `return <call>` of a method of its class or a function of the module"""
+        body = [s for s in f.node.body if not (isinstance(s, ast.Expr) and isinstance(s.value, ast.Constant))]
+        if len(body) != 1 or not isinstance(body[0], ast.Return) or not isinstance(body[0].value, ast.Call):
+            return None
+        fn = body[0].value.func
+        if isinstance(fn, ast.Attribute) and isinstance(fn.value, ast.Name) and f.cls is not None and fn.value.id in ('self', 'cls', f.cls.name):
+            h = f.cls.find_method(fn.attr)
+        elif isinstance(fn, ast.Name):
+            h = self.functions.get(fn.id)
+        else:
+            h = None
+        return h if h is not None and h is not f and h.module is self else None
 
 
 class Repo:
